@@ -1,12 +1,13 @@
 package checks
 
 import (
-	"os"
 	"context"
 	"errors"
 	"fmt"
+	"os"
 	"sort"
 	"strings"
+	"sync"
 	"sync/atomic"
 	"testing/fstest"
 	"time"
@@ -407,6 +408,29 @@ func init() {
 	})
 }
 
+var c07DirOnce sync.Once
+var c07Dir string
+
+// c07ModuleDir writes the two modules to a scratch directory once per process.
+func c07ModuleDir() string {
+	c07DirOnce.Do(func() {
+		base := os.Getenv("VERIF_OUT")
+		if base == "" {
+			base = os.TempDir()
+		} else {
+			base = dirOf(base)
+		}
+		d, err := os.MkdirTemp(base, "c07mods-")
+		if err != nil {
+			panic("harness: " + err.Error())
+		}
+		os.WriteFile(d+"/cmod.risor", []byte(c07Module), 0o644)
+		os.WriteFile(d+"/cmod2.risor", []byte(c07Module2), 0o644)
+		c07Dir = d
+	})
+	return c07Dir
+}
+
 func runC07(rc *fw.RunCtx) {
 	g := rc.Tape.Stream("gen")
 	f := rc.Tape.Stream("fault")
@@ -428,8 +452,23 @@ func runC07(rc *fw.RunCtx) {
 	}
 	sort.Strings(gnames)
 	mfs := fstest.MapFS{"cmod.risor": &fstest.MapFile{Data: []byte(c07Module)}, "cmod2.risor": &fstest.MapFile{Data: []byte(c07Module2)}}
+	// modules come from FSImporter over an in-memory tree or from LocalImporter
+	// over a scratch directory
+	useLocal := g.Chance(1, 3)
+	localDir := ""
+	if useLocal {
+		localDir = c07ModuleDir()
+		rc.Hit("importer_local")
+	} else {
+		rc.Hit("importer_fs")
+	}
 	newCfg := func() *risor.Config {
-		imp := importer.NewFSImporter(importer.FSImporterOptions{GlobalNames: gnames, SourceFS: mfs, Extensions: []string{".risor"}})
+		var imp importer.Importer
+		if useLocal {
+			imp = importer.NewLocalImporter(importer.LocalImporterOptions{GlobalNames: gnames, SourceDir: localDir, Extensions: []string{".risor"}})
+		} else {
+			imp = importer.NewFSImporter(importer.FSImporterOptions{GlobalNames: gnames, SourceFS: mfs, Extensions: []string{".risor"}})
+		}
 		return risor.NewConfig(append(baseOpts(extra), risor.WithImporter(imp))...)
 	}
 	cfg := newCfg()      // system under test
